@@ -1,6 +1,8 @@
 import Cicada.Codec
 import Cicada.Model.ParserLine
 import Cicada.Model.Execute
+import Cicada.Model.Subst
+import Cicada.Model.Core
 import Cicada.Spec.C03
 /-!
 `cicada_model` — runs the Lean model (the very definitions the theorems are about) and the
@@ -46,6 +48,70 @@ def parseProg (s : String) : Option C03.Prog :=
       | _ => none)
     if segs.length = rest.length then some { first := unhex f, rest := segs } else none
 
+
+def pairsIn (s : String) : List (Str × Str) :=
+  if s = "[]" ∨ s = "" then [] else
+  (s.splitOn ",").filterMap (fun p => match p.splitOn ":" with
+    | [a, b] => some (unhex a, unhex b)
+    | _ => none)
+
+def pairsOut (l : List (Str × Str)) : String :=
+  if l.isEmpty then "[]" else ",".intercalate (l.map (fun (a, b) => hex a ++ ":" ++ hex b))
+
+structure EnvSpec where
+  env : Env := { pid := 4194305 }
+  cmds : List (Str × Str) := []
+
+def envIn (s : String) : EnvSpec :=
+  (s.splitOn ";").foldl (fun (e : EnvSpec) sec =>
+    if sec.length < 2 then e else
+    let k := (sec.take 2).toString
+    let v := (sec.drop 2).toString
+    match k with
+    | "v=" => { e with env := { e.env with vars := pairsIn v } }
+    | "x=" => { e with env := { e.env with exported := pairsIn v } }
+    | "a=" => { e with env := { e.env with aliases := pairsIn v } }
+    | "s=" => { e with env := { e.env with status := v.toInt?.getD 0 } }
+    | "c=" => { e with cmds := pairsIn v }
+    | _ => e) {}
+
+def EnvSpec.subst (e : EnvSpec) : SubstEnv :=
+  { env := e.env, cmdOut := fun k => (lookup e.cmds k).getD [] }
+
+def outcomeStr {α} (f : α → String) : Outcome α → String
+  | .ok a => f a
+  | .err k => if k.startsWith "unmodelled" then "UNMODELLED " ++ k else "ERR " ++ k
+  | .panic _ => "PANIC"
+  | .diverge _ => "HANG"
+
+def outcomeCls {α} : Outcome α → String
+  | .panic s => "panic:" ++ s
+  | .diverge s => "hang:" ++ s
+  | _ => "-"
+
+def ansOf {α} (f : α → String) (o : Outcome α) : Ans := { m := outcomeStr f o, cls := outcomeCls o }
+
+def redirsOut (r : List Redir) : String :=
+  if r.isEmpty then "[]" else ",".intercalate (r.map (fun (a, b, c) => hex a ++ ":" ++ hex b ++ ":" ++ hex c))
+
+def cmdOutS (c : Command) : String :=
+  let from_ := match c.redirectFrom with
+    | some (a, b) => hex a ++ ":" ++ hex b
+    | none => "none"
+  toksOut c.tokens ++ "/" ++ redirsOut c.redirectsTo ++ "/" ++ from_
+
+/-- HashMap semantics: last binding of a name wins; sorted by (name, value) as the harness does -/
+def canonEnvs (l : List (Str × Str)) : List (Str × Str) :=
+  let dedup := l.foldl (fun acc (k, v) => (acc.filter (fun p => p.1 ≠ k)) ++ [(k, v)]) []
+  let key (p : Str × Str) : String := String.ofList p.1
+  (dedup.toArray.qsort (fun a b => key a < key b)).toList
+
+def planOut : Except String Plan → String
+  | .ok p =>
+    let cmds := if p.commands.isEmpty then "[]" else ";".intercalate (p.commands.map cmdOutS)
+    "ok|" ++ (if p.background then "1" else "0") ++ "|" ++ pairsOut (canonEnvs p.envs) ++ "|" ++ cmds
+  | .error e => "err|" ++ hex e.toList
+
 def answer (stream : String) (f : Array String) : Ans :=
   let g (i : Nat) : String := f.getD i "-"
   match stream with
@@ -80,6 +146,61 @@ def answer (stream : String) (f : Array String) : Ans :=
       if !C03.guard p then { m := m, guard := "0" } else
       let r := C03.specList run prev p
       { m := m, s := traceOut r.trace ++ "|" ++ toString r.sh, guard := "1" }
+  | "xalias" => { m := toksOut (expandAlias (envIn (g 0)).env (toksIn (g 1))) }
+  | "xhome" => { m := toksOut (expandHome (envIn (g 0)).env (toksIn (g 1))) }
+  | "xenv" => { m := toksOut (expandEnv (envIn (g 0)).env (toksIn (g 1))) }
+  | "xbrace" => ansOf toksOut (expandBrace (toksIn (g 0)))
+  | "xrange" => ansOf toksOut (expandBraceRange (toksIn (g 0)))
+  | "xall" =>
+    let ts := toksIn (g 1)
+    ansOf toksOut (doExpansion (envIn (g 0)).subst (planFuel (tokensToLine ts)) ts)
+  | "subst" =>
+    let ts := toksIn (g 1)
+    let se := (envIn (g 0)).subst
+    let fuel := planFuel (tokensToLine ts)
+    let r := (substDotGo se fuel 0 ts).bind (fun u1 =>
+      let t5 := doExpansion.applyUpdates ts u1
+      (substDollarGo se fuel 0 t5).map (fun u2 => match u2 with
+        | none => t5
+        | some u => doExpansion.applyUpdates t5 u))
+    ansOf toksOut r
+  | "envin" => { m := if envInToken (unhex (g 0)) then "1" else "0" }
+  | "needbrace" => { m := if needExpandBrace (unhex (g 0)) then "1" else "0" }
+  | "shoulddollar" => { m := if shouldDoDollar (unhex (g 0)) then "1" else "0" }
+  | "oneenv" =>
+    { m := hex (expandEnvs (envIn (g 0)).env (unhex (g 1))) }
+  | "pipes" =>
+    let v := splitByPipes (toksIn (g 0))
+    { m := if v.isEmpty then "[]" else ";".intercalate (v.map toksOut) }
+  | "drain" =>
+    let (e, r) := drainEnvTokens (toksIn (g 0))
+    { m := pairsOut (canonEnvs e) ++ "|" ++ toksOut r }
+  | "ftok" =>
+    { m := match fromTokens (toksIn (g 0)) with
+        | .ok c => "ok|" ++ cmdOutS c
+        | .error e => "err|" ++ hex e.toList }
+  | "plan" =>
+    let line := unhex (g 1)
+    ansOf planOut (planOf (envIn (g 0)).subst (planFuel line) line)
+  | "head" =>
+    let line := unhex (g 1)
+    let es := envIn (g 0)
+    let o : Outcome String := (planOf es.subst (planFuel line) line).bind (fun pl => match pl with
+      | .error e => .ok ("err|" ++ hex e.toList)
+      | .ok p => (runPipelineHead es.env line p true).map (fun h => match h with
+        | .bgCapture => "st=1|out=-|err=-|log=[]"
+        | .calcOk z => "st=0|out=" ++ hex (showInt z) ++ "|err=-|log=[]"
+        | .calcFloat => "st=0|out=F|err=-|log=[]"
+        | .calcErr => "st=1|out=-|err=" ++ hex "syntax error".toList ++ "|log=[]"
+        | .func _ => "UNMODELLED func"
+        | .invalid => "st=1|out=-|err=-|log=[]"
+        | .run k => "st=0|out=" ++ hex (es.subst.cmdOut k) ++ "|err=-|log=" ++ hex k))
+    ansOf id o
+  | "calc" =>
+    ansOf (fun r => match r with
+      | Calc.CalcRes.int z => "ok|" ++ hex (showInt z)
+      | .float => "ok|F"
+      | .syntaxError => "err") (Calc.runCalculator (unhex (g 0)))
   | _ => { m := "UNKNOWN-STREAM" }
 
 partial def loop (h : IO.FS.Stream) (out : IO.FS.Stream) : IO Unit := do
